@@ -4,6 +4,7 @@ import (
 	"fmt"
 	"github.com/cuteLittleDevil/go-jt808/protocol/model"
 	"os"
+	"path/filepath"
 	"strings"
 )
 
@@ -80,7 +81,13 @@ func (f *fileEvent) OnEvent(progress *PackageProgress) {
 			len(progress.Record), progress.ExtensionFields.ActiveSafetyType.String())
 		_ = os.MkdirAll(phone, os.ModePerm)
 		for name, pack := range progress.Record {
-			savePath := fmt.Sprintf("./%s/%s", phone, name)
+			// 文件名来自终端 只保留最后一级名称 防止写到终端目录之外
+			base := filepath.Base(name)
+			if base == "." || base == ".." || base == string(filepath.Separator) {
+				str += fmt.Sprintf("文件名不合法[%s] 不保存\n", name)
+				continue
+			}
+			savePath := fmt.Sprintf("./%s/%s", phone, base)
 			err := os.WriteFile(savePath, pack.StreamBody, os.ModePerm)
 			str += fmt.Sprintf("保存文件[%s] 文件大小[%d byte] 保存情况[%v]\n",
 				savePath, len(pack.StreamBody), err)
